@@ -37,6 +37,7 @@ class SimFS:
         self.crashed = False
         self.open_files: list[SimFile] = []
         self.fail_open: dict[str, type] = {}
+        self.fds: dict[int, tuple[str, int]] = {}  # descriptors from os.open: fd -> (path, flags)
 
     # ---- crash machinery ------------------------------------------------------------
     def step(self, kind: str, path: str, n: int = 0, f: "SimFile | None" = None) -> bool:
@@ -52,7 +53,7 @@ class SimFS:
             if kind in ("write", "flush", "close") and f is not None:
                 keep = min(self.crash_at[1], len(f.pending))
                 if keep:
-                    self.files[f.path] = self.files.get(f.path, b"") + bytes(f.pending[:keep])
+                    f._apply(keep)
             self.crashed = True
             raise SimCrash(f"crash at op {idx} ({kind} {path})")
         return True
@@ -66,7 +67,33 @@ class SimFS:
         self.open_files = []
 
     # ---- file API ---------------------------------------------------------------------
+    def os_open(self, path, flags: int, mode: int = 0o777) -> int:
+        """os.open: no implicit truncation - only O_TRUNC empties an existing file"""
+        path = _real_os.fspath(path)
+        if _real_os.path.dirname(path) not in self.dirs:
+            raise FileNotFoundError(2, "No such file or directory", path)
+        if self.step("os_open", path):
+            if path in self.files:
+                if flags & _real_os.O_EXCL and flags & _real_os.O_CREAT:
+                    raise FileExistsError(17, "File exists", path)
+                if flags & _real_os.O_TRUNC:
+                    self.files[path] = b""
+            elif flags & _real_os.O_CREAT:
+                self.files[path] = b""
+            else:
+                raise FileNotFoundError(2, "No such file or directory", path)
+        fd = 20_000 + len(self.fds)
+        self.fds[fd] = (path, flags)
+        return fd
+
     def open(self, path, mode="r", buffering=-1, encoding=None, errors=None, newline=None, **kw):
+        if isinstance(path, int) and path in self.fds:
+            # open(fd, "w"): wraps the descriptor, does NOT truncate; writing starts at offset 0 (or at the end with O_APPEND)
+            real_path, flags = self.fds[path]
+            f = SimFile(self, real_path, mode, encoding or "utf-8")
+            f.pos = len(self.files.get(real_path, b"")) if flags & _real_os.O_APPEND else 0
+            self.open_files.append(f)
+            return f
         path = _real_os.fspath(path)
         if path in self.fail_open:
             raise self.fail_open[path](13, "Permission denied", path)
@@ -91,6 +118,8 @@ class SimFS:
                 self.files[path] = b""
             elif "a" in mode:
                 self.files.setdefault(path, b"")
+            if "a" in mode:
+                f.pos = len(self.files.get(path, b""))
         self.open_files.append(f)
         return f
 
@@ -144,6 +173,7 @@ class SimFile:
         self.pending = bytearray()
         self.closed = False
         self.name = path
+        self.pos = 0  # offset at which pending bytes land (0 after a truncating open)
 
     def write(self, s) -> int:
         data = bytes(s) if self.binary else s.encode(self.encoding)
@@ -155,10 +185,17 @@ class SimFile:
         if self.fs.step("flush", self.path, len(self.pending), self):
             self._commit()
 
+    def _apply(self, n: int) -> None:
+        """the first n pending bytes reach the file at the current offset (overwriting what is there, extending if needed)"""
+        cur = self.fs.files.get(self.path, b"")
+        data = bytes(self.pending[:n])
+        self.fs.files[self.path] = cur[: self.pos] + data + cur[self.pos + len(data):]
+        self.pos += len(data)
+        del self.pending[:n]
+
     def _commit(self) -> None:
         if self.pending:
-            self.fs.files[self.path] = self.fs.files.get(self.path, b"") + bytes(self.pending)
-            self.pending.clear()
+            self._apply(len(self.pending))
 
     def close(self) -> None:
         if self.closed:
@@ -192,6 +229,8 @@ def _is_sim(path) -> bool:
 
 
 def sim_open(path, *a, **kw):
+    if isinstance(path, int) and CUR.fs is not None and path in CUR.fs.fds:
+        return CUR.fs.open(path, *a, **kw)
     if _is_sim(path):
         return CUR.fs.open(path, *a, **kw)
     return builtins.open(path, *a, **kw)
@@ -231,6 +270,16 @@ class _OsShim:
         return CUR.fs.unlink(p) if _is_sim(p) else _real_os.unlink(p, **kw)
 
     remove = unlink
+
+    @staticmethod
+    def open(p, flags, mode=0o777, **kw):
+        return CUR.fs.os_open(p, flags, mode) if _is_sim(p) else _real_os.open(p, flags, mode, **kw)
+
+    @staticmethod
+    def close(fd):
+        if isinstance(fd, int) and CUR.fs is not None and fd in CUR.fs.fds:
+            return None
+        return _real_os.close(fd)
 
     @staticmethod
     def fsync(fd):
